@@ -67,6 +67,49 @@ def step (st : St) (ws : List String) (_impl : String) : St × Ans :=
           | .ok k => (st, { m := s!"ok path={k.targetPath} hash={k.target}" })
           | _ => (st, { m := "err" })
       | none => (st, bad)
+  | ["authz", salt, master, contract, sign, perms, target, expires, banned, chan, perm, mangle, now] =>
+      -- the presented string is derived from an issued key (characters appended / prepended / dropped):
+      -- the ban, if any, is on the issued string
+      match salt.toNat?, master.toNat?, contract.toNat?, sign.toNat?, perms.toNat?, expires.toInt?,
+            bytesOfHex chan, perm.toNat?, kvInt now "now" with
+      | some salt, some master, some contract, some sign, some perms, some expires, some chan, some perm, some now =>
+          match mkKey salt master contract sign perms target expires with
+          | some k =>
+              match Cipher.encryptKey st.cipher k with
+              | .ok keyStr =>
+                  let presented : Option Bytes :=
+                    match (mangle.dropPrefix? "mangle=").map (·.toString.splitOn ":") with
+                    | some ["app", h] => (bytesOfHex h).map (keyStr ++ ·)
+                    | some ["pre", h] => (bytesOfHex h).map (· ++ keyStr)
+                    | some ["trunc", n] => n.toNat?.map (fun n => keyStr.take (keyStr.length - n))
+                    | _ => none
+                  match presented with
+                  | none => (st, bad)
+                  | some pk =>
+                      let env : Env := { cipher := st.cipher, contractId := st.contract, signature := st.sign, now := now,
+                                         banned := if banned == "1" then [keyStr] else [] }
+                      let ch := parseChannel (pk ++ [sep] ++ chan)
+                      let m := (authorize env ch (UInt8.ofNat perm)).isSome
+                      -- specification: a string of another length than an issued key is no key of this license
+                      (st, { m := toString m, s := if pk.length != keyStr.length then "false" else "=" })
+              | _ => (st, bad)
+          | none => (st, { m := "bad-target" })
+      | _, _, _, _, _, _, _, _, _ => (st, bad)
+  | ["extend", salt, master, contract, sign, perms, target, expires, chan, connId, access, now] =>
+      match salt.toNat?, master.toNat?, contract.toNat?, sign.toNat?, perms.toNat?, expires.toInt?,
+            bytesOfHex chan, bytesOfHex connId, access.toNat?, kvInt now "now" with
+      | some salt, some master, some contract, some sign, some perms, some expires, some chan, some connId, some access, some now =>
+          match mkKey salt master contract sign perms target expires with
+          | some k =>
+              match Cipher.encryptKey st.cipher k with
+              | .ok keyStr =>
+                  let env : Env := { cipher := st.cipher, contractId := st.contract, signature := st.sign, now := now, banned := [] }
+                  match extendKey env keyStr chan connId (UInt8.ofNat access) 0 with
+                  | .ok _ => (st, { m := "extended" })
+                  | _ => (st, { m := "refused" })
+              | _ => (st, bad)
+          | none => (st, { m := "bad-target" })
+      | _, _, _, _, _, _, _, _, _, _ => (st, bad)
   | ["authz", salt, master, contract, sign, perms, target, expires, banned, chan, perm, now] =>
       match salt.toNat?, master.toNat?, contract.toNat?, sign.toNat?, perms.toNat?, expires.toInt?,
             bytesOfHex chan, perm.toNat?, kvInt now "now" with
